@@ -845,8 +845,13 @@ def method_render(self):
                     raise G2CError('unsupported division flavour %r' % rhs)
                 iscall = bool(re.match(r'^[A-Za-z_]\w* \(.*\)$', rhs)) and not rhs.startswith('(')
                 L = self.expr(lhs); Rr = self.expr(rhs)
-                if rhs.startswith('&') and '@B' in Rr and Rr.endswith('@') :
-                    pass
+                if rhs.startswith('&') and '@B' in Rr and Rr.endswith('@'):
+                    # `_1 = &obj->D_uid` (address of a base sub-object): the type of _1 names the base
+                    mb = re.search(r'@B(\d+)@$', Rr)
+                    vt = self.vars.get(lhs.strip())
+                    mt = re.search(r'(?:struct|union) (\S*?)D_(\d+)', vt[1]) if vt else None
+                    if mb and mt:
+                        self.R.base_field_struct[mb.group(1)] = mt.group(2)
                 lines.append('  %s = %s;%s' % (L, Rr, propagate() if iscall else ''))
                 continue
             m = re.match(r'^([A-Za-z_]\w*) \((.*)\);$', s)
@@ -955,6 +960,7 @@ KNOWN_SLOTS = {('Controller', 4): 'finalizeControl', ('Expression', 2): 'unparse
 class Renderer:
     def __init__(self, unit, objfile, aliases=None, line_directives=True, transparent=(), enums=(), extra_structs=()):
         self.enums = list(enums)
+        self.base_field_struct = {}   # uid of an anonymous (base-class) field -> uid of the struct it is
         self.extra_structs = list(extra_structs)
         self.unit = unit
         self.obj = objfile
@@ -1149,6 +1155,11 @@ class Renderer:
         bases = [b for b, off in ent['bases']]
         if len(bases) == 1:
             return bases[0]
+        mh = re.match(r'^@B(\d+)@$', uid_hint or '')
+        if mh and mh.group(1) in self.base_field_struct:
+            bq = self.uid_q.get(self.base_field_struct[mh.group(1)])
+            if bq in bases:
+                return bq
         def has_field(bq, fn):
             e = self.layouts.get(bq, {})
             if any(n == fn for n, o in e.get('offsets', [])):
